@@ -602,6 +602,11 @@ func checkWholeCandidateRejection(p *core.Program, r *core.Report, g *charGen, r
 					okReq = true
 				}
 			}
+			// the required sets handed over as strings prepared once per call:
+			// [concat(e.s) for e in copy.requiredSets if size(e) > 0], built after the builder ran
+			if g.recvCopy != nil && g.builder != nil && isRequiredStrings(p, g, a) {
+				okReq = true
+			}
 		}
 		r.Check(okStr, rule, name, "the filter sees the string of exactly the freshly drawn tokens", p.InstrPos(filt), "")
 		r.Check(okReq, rule, name, "the filter uses the required sets computed by the builder for this call", p.InstrPos(filt), "")
@@ -755,6 +760,108 @@ func checkFilterAllOf(p *core.Program, r *core.Report, g *charGen, rule string) 
 				}
 			}
 		}
+		// a list of strings (one per required set, prepared by the caller — see R2.4): the swept element itself
+		if ld, ok := arg.(*ssa.UnOp); ok && req.Type().String() == "[]string" {
+			if ia, ok := ld.X.(*ssa.IndexAddr); ok && ia.X == ssa.Value(req) && ia.Index == ri.Index {
+				okDer = true
+			}
+		}
 		r.Check(okDer, rule, name, "the characters tested are those of the swept required set", p.InstrPos(c), core.Describe(arg))
 	}
+}
+
+// isRequiredStrings: v is the list [concat(e.s) for e in copy.requiredSets if size(e) > 0]
+// accumulated by one full sweep after the builder ran (the requirement sets in the form
+// strings.ContainsAny takes, prepared once per Generate call).
+func isRequiredStrings(p *core.Program, g *charGen, v ssa.Value) bool {
+	fromBuilder := func(x ssa.Value) bool {
+		ref, okP := core.LoadPath(x)
+		if !okP || ref.Root != ssa.Value(g.recvCopy) || ref.Path != ".requiredSets" {
+			return false
+		}
+		ld, isLd := x.(ssa.Instruction)
+		return isLd && core.InstrDominates(g.builder, ld)
+	}
+	// a helper applied to the builder's required sets whose result is the list over its parameter
+	if c, isCall := v.(*ssa.Call); isCall {
+		f := core.StaticCallee(c)
+		if f == nil || !p.InLib(f) || f.Blocks == nil || len(f.Params) != 1 || len(c.Call.Args) != 1 || !fromBuilder(c.Call.Args[0]) {
+			return false
+		}
+		if g.retry != nil && g.retry.Blocks[c.Block()] {
+			// recomputed per attempt: still the same list
+		}
+		nAcc := 0
+		for _, ret := range core.Returns(f) {
+			if core.IsNilConst(ret.Results[0]) {
+				continue
+			}
+			if !isSetStringList(p, core.Loops(f), ret.Results[0], func(x ssa.Value) bool { return core.StripType(x) == ssa.Value(f.Params[0]) }) {
+				return false
+			}
+			nAcc++
+		}
+		return nAcc >= 1
+	}
+	loop, _, _, ok := sliceAccumulator(v, g.loops)
+	if !ok || g.retry != nil && g.retry.Blocks[loop.Header] {
+		return false
+	}
+	return isSetStringList(p, g.loops, v, fromBuilder)
+}
+
+// isSetStringList: v = [concat(e.s) for e in S if size(e) > 0] with S accepted by src.
+func isSetStringList(p *core.Program, loops []*core.Loop, v ssa.Value, src func(ssa.Value) bool) bool {
+	loop, app, elems, ok := sliceAccumulator(v, loops)
+	if !ok || len(elems) != 1 {
+		return false
+	}
+	ri, isR := core.AsRange(loop)
+	if !isR || ri.Kind != "slice" || !src(ri.X) {
+		return false
+	}
+	// element: concat-of-set helper applied to the swept element's set
+	sc, isCall := elems[0].(*ssa.Call)
+	if !isCall || len(sc.Call.Args) != 1 {
+		return false
+	}
+	if f := core.StaticCallee(sc); f == nil {
+		return false
+	} else if okC, _ := isConcatOfSet(f); !okC {
+		return false
+	}
+	if !elementOfRange(sc.Call.Args[0], ri, 0) {
+		return false
+	}
+	// the append is guarded by nothing but a non-emptiness test of that element
+	for _, gd := range core.Guards(app.Block()) {
+		if !loop.Blocks[gd.If.Block()] || gd.If.Block() == loop.Header {
+			continue
+		}
+		rel, isRel := core.AsRel(gd)
+		if !isRel {
+			return false
+		}
+		c, isC := rel.X.(*ssa.Call)
+		if !isC {
+			return false
+		}
+		k, isK := core.ConstInt(rel.Y)
+		if !isK || !(rel.Op == token.GTR && k == 0 || rel.Op == token.NEQ && k == 0 || rel.Op == token.GEQ && k == 1) {
+			return false
+		}
+		okRecv := false
+		for _, a := range c.Call.Args {
+			if elementOfRange(a, ri, 0) {
+				okRecv = true
+			}
+		}
+		if c.Common().IsInvoke() && elementOfRange(c.Common().Value, ri, 0) {
+			okRecv = true
+		}
+		if !okRecv {
+			return false
+		}
+	}
+	return true
 }
